@@ -2011,6 +2011,21 @@ class Evaluator:
 
     eval_GeneratorExp = eval_ListComp
 
+    def eval_DictComp(self, e, st):
+        """{k: v for k, v in d.items()} is (a copy of) d; with a filter or transformed keys / values it is a mapping derived from d - kept as an opaque
+        term that names its source, so that a rule asking for d itself sees that it got something else"""
+        if len(e.generators) == 1 and not e.generators[0].is_async:
+            g = e.generators[0]
+            if isinstance(g.iter, ast.Call) and isinstance(g.iter.func, ast.Attribute) and g.iter.func.attr == 'items' and not g.iter.args \
+                    and isinstance(g.target, ast.Tuple) and len(g.target.elts) == 2 and all(isinstance(x_, ast.Name) for x_ in g.target.elts):
+                src = self.eval(g.iter.func.value, st)
+                kn, vn = (x_.id for x_ in g.target.elts)
+                if not g.ifs and isinstance(e.key, ast.Name) and e.key.id == kn and isinstance(e.value, ast.Name) and e.value.id == vn:
+                    return src
+                how = ('filtered by ' + ' and '.join(ast.unparse(c_) for c_ in g.ifs)) if g.ifs else 'with transformed items'
+                return Term('dictcomp', (src, Const(how)), kind='dict', node=e)
+        return self.unsupported(st, e, 'DictComp')
+
     def eval_UnaryOp(self, e, st):
         v = self.eval(e.operand, st)
         if isinstance(e.op, ast.Not):
